@@ -172,6 +172,21 @@ func EventType(event any) string {
 	return reflect.TypeOf(event).String()
 }
 
+// eventTypeOf returns the name EventType reports for events of type T, so that
+// APIs selecting stored events by Go type agree with what Publish persisted.
+func eventTypeOf[T any]() string {
+	t := reflect.TypeOf((*T)(nil)).Elem()
+	switch t.Kind() {
+	case reflect.Interface:
+		return t.String()
+	case reflect.Pointer:
+		// a nil pointer would panic in value-receiver EventTypeName methods
+		return EventType(reflect.New(t.Elem()).Interface())
+	}
+	var zero T
+	return EventType(zero)
+}
+
 // Observability is an optional interface for metrics and tracing.
 // Implementations can track event publishing, handler execution, and errors.
 //
